@@ -8,7 +8,10 @@ import (
 	"time"
 	"unicode/utf8"
 
+	"Havoc/pkg/profile"
 	hcl "Havoc/pkg/profile/yaotl"
+	"Havoc/pkg/profile/yaotl/gohcl"
+	"Havoc/pkg/profile/yaotl/hcldec"
 	"Havoc/pkg/profile/yaotl/hclsyntax"
 	hcljson "Havoc/pkg/profile/yaotl/json"
 )
@@ -108,7 +111,7 @@ func tokenMutants(base string, rng *rand.Rand, n int, all bool) []string {
 	if p, _ := guarded(func() { toks, _ = hclsyntax.LexConfig(src, "m.hcl", hcl.Pos{Line: 1, Column: 1}) }, 5*time.Second); p != "" || len(toks) < 2 {
 		return nil
 	}
-	toks = toks[:len(toks)-1] // without the end-of-file token
+	toks = toks[:len(toks)-1]     // without the end-of-file token
 	piece := func(i int) string { // token i with the blanks before it
 		st := 0
 		if i > 0 {
@@ -313,6 +316,14 @@ func scanCalls() []scanCall {
 					}
 					var schema hcl.BodySchema
 					body.PartialContent(&schema)
+					// ... and decoded: into the real profile type, into a catch-all struct, and by a spec
+					var cfg profile.HavocConfig
+					gohcl.DecodeBody(body, ctx, &cfg)
+					var rest struct {
+						Remain hcl.Body `yaotl:",remain"`
+					}
+					gohcl.DecodeBody(body, ctx, &rest)
+					hcldec.Decode(body, rwSpec, ctx)
 				}
 			}
 			return map[string]any{"k": "parse", "nodes": nodes, "diags": dr, "errs": errs}
@@ -368,6 +379,9 @@ func scanCalls() []scanCall {
 				}
 				var schema hcl.BodySchema
 				f.Body.PartialContent(&schema)
+				var cfg profile.HavocConfig
+				gohcl.DecodeBody(f.Body, ctx, &cfg)
+				hcldec.Decode(f.Body, rwSpec, ctx)
 			}
 			return map[string]any{"k": "parse", "nodes": []any{}, "diags": dr, "errs": errs}
 		}},
